@@ -16,6 +16,8 @@ CONSTANTS
   SelMenu = {%s}
   Targets = {%s}
   MediaMenu = {%s}
+  InnerMenu = {%s}
+  ChainMode = %s
 INVARIANTS CreditMonotone Emit
 CHECK_DEADLOCK FALSE
 """
@@ -36,7 +38,9 @@ def run(ctx):
     focused = [(3, 1, [".y:not(.x)", "b:not(.x)", ":is(.x, b)", "b", ".y"], [".x"]),             # the same pseudo in several rules
                (3, 2, [".x", "a ~ .y", "a + .y", "b"], [".x"]),                                    # sibling extenders, no weaving
                (3, 2, [".x", "a.x", "%p", "b"], [".x", "%p"]),                                     # chains / order
-               (2, 1, [".x", "a.x", "b", "%p"], [".x", "%p"], ["", "screen", "print"])]            # @extend and @media blocks
+               (2, 1, [".x", "a.x", "b", "%p"], [".x", "%p"], ["", "screen", "print"]),            # @extend and @media blocks
+               (4, 3, [".x"], [".x"], [""], "chain"),                                              # a three-link chain in all 24 rule orders
+               (2, 1, [".x", "a.x", "b", "%p"], [".x", "%p"], [""], "inner")]                      # declarations inside a nested @media of the rule
     broad = [(3, 2, [".x", "a.x", "a .x", "%p", ".y:not(.x)", "b"], [".x", ".y", "%p"]),
              (2, 2, [".x", ".y", "a.x", "b.y", "a .x", ".x > b", "a ~ .y", ".y + .x", "b %p", ".x .y", ".y:not(.x)", ":is(.x, b)",
                      "b:not(.x)", ".x, b.y", "a.x .y", "a:not(.x)", "%p"], [".x", ".y", "%p", ".zz"])]
@@ -49,7 +53,9 @@ def run(ctx):
         for plan in plans:
             mr, me, menu, targets = plan[:4]
             medias = plan[4] if len(plan) > 4 else [""]
-            r = C.tlc("MC_Extend", cfg_text=CFG % (mr, me, q(menu), q(targets), q(medias)), workers=8, timeout=3000)
+            inner = "FALSE, TRUE" if (len(plan) > 5 and plan[5] == "inner") else "FALSE"
+            chain = "TRUE" if (len(plan) > 5 and plan[5] == "chain") else "FALSE"
+            r = C.tlc("MC_Extend", cfg_text=CFG % (mr, me, q(menu), q(targets), q(medias), inner, chain), workers=8, timeout=3000)
             C.tlc_must_pass(r, "MC_Extend")
             ctx.add_tlc(r)
             out.extend(r.cases)
@@ -72,6 +78,15 @@ def run(ctx):
     if not thorough and len(rest) > 600:
         rest = rnd.sample(rest, 600)
     cases += rest
+    # spelling variants: '.y' written as an id, an attribute or a pseudo-class (one opaque element feature in the model)
+    modes = ["id", "attr", "pseudo"]
+    nvar = 0
+    for k, c in enumerate(list(cases)):
+        if (k % 4 == 0 or thorough) and any(".y" in ln for ln in c["scss"]):
+            md = modes[nvar % 3]
+            nvar += 1
+            cases.append(dict(c, scss=[selparse.respell(ln, md) for ln in c["scss"]]))
+    ctx.extra["spelling_variants"] = nvar
     jobs = [{"id": i, "src": "\n".join(c["scss"]) + "\n"} for i, c in enumerate(cases)]
     res = C.run_cases(jobs, PID, watchdog=15.0)
     tpath = os.path.join(C.WORK, "trace-C10-%d.ndjson" % os.getpid())
@@ -101,21 +116,38 @@ def run(ctx):
             if "%" in x["css"]:
                 ctx.violation("a placeholder selector reached the output", {"src": j["src"], "css": x["css"]})
                 continue
+            if len(x["css"]) > 3000000:
+                ctx.extra["outputs_too_large_to_judge"] = ctx.extra.get("outputs_too_large_to_judge", 0) + 1
+                if len(x["css"]) > ctx.extra.get("largest_output", {}).get("bytes", 0):
+                    ctx.extra["largest_output"] = {"bytes": len(x["css"]), "scss": c["scss"]}
+                continue
             outsel = {}
+            outsel2 = {}
             try:
                 for _, sel, ds in cssread.flatten(cssread.parse(x["css"])):
                     if ds:
                         for k, v in ds:
                             if k == "r":
                                 outsel[int(v)] = selparse.parse_list(sel)
+                            elif k == "r2":
+                                outsel2[int(v)] = selparse.parse_list(sel)
             except (selparse.Unsupported, cssread.CssSyntaxError) as e:
                 ctx.violation("emitted selector could not be read: %s" % e, {"src": j["src"], "css": x["css"]})
                 continue
-            for i, sel in enumerate(c["sels"]):
+            observations = [(i, sel, outsel) for i, sel in enumerate(c["sels"])]
+            observations += [(i, sel, outsel2) for i, sel in enumerate(c["sels"]) if c["inners"][i]]   # the rule's copy inside its own @media
+            for i, sel, seen_sel in observations:
                 # extensions that can reach this rule: top-level ones and those of its own @media block
                 exts = [{"extender": t["extender"], "target": t["target"]} for t in c["exts"] if t["media"] in ("", c["medias"][i])]
                 e = {"sel": sel, "exts": exts, "compoundonly": c["compoundonly"],
-                     "gone": (i + 1) not in outsel, "out": outsel.get(i + 1, [])}
+                     "gone": (i + 1) not in seen_sel, "out": seen_sel.get(i + 1, [])}
+                if len(e["out"]) > 300:
+                    # mutually extending complex extenders make grass emit selector lists of 1e5 complexes (finding F16 of the
+                    # design notes: a resource blow-up, not a clause of C10); judging those on every DOM is out of reach
+                    ctx.extra["outputs_too_large_to_judge"] = ctx.extra.get("outputs_too_large_to_judge", 0) + 1
+                    if "largest_output" not in ctx.extra:
+                        ctx.extra["largest_output"] = {"complexes": len(e["out"]), "scss": c["scss"]}
+                    continue
                 key = json.dumps(e, sort_keys=True)
                 nrules += 1
                 if key in judged:          # the same (selector, extensions, emitted selector) was already queued: one judgement serves both
